@@ -62,7 +62,7 @@ def run(ctx):
     trans = r.generated
     total_blocks = total_tx = total_ok = 0
     stats = {}
-    import_refused = imports_ok = import_dur = 0
+    import_refused = imports_ok = import_dur = import_unsorted = 0
     import random
     rnd = random.Random(ctx.seed)
     for wi in range(nwl):
@@ -113,6 +113,7 @@ def run(ctx):
                 e = json.loads(ln)
                 if e["e"] == "export" and e["blk"] == cand:
                     import_dur = max(import_dur, e.get("stats", {}).get("maxDistinctLockDurationsPerDenom", 0))
+                    import_unsorted += e.get("stats", {}).get("maxActiveGaugeRefsOutOfIdOrder", 0)
             break
         if export_at is None:
             log("workload %d: every export point was refused by the importer (listed finding); replica agreement still checked" % wi)
@@ -174,6 +175,10 @@ def run(ctx):
     if import_dur < 11:
         raise Infra("no import happened at a state with more than 10 distinct lock durations on one denom (max %d): "
                     "the rebuilt accumulation trees never split" % import_dur)
+    if import_unsorted == 0:
+        raise Infra("no import happened at a state whose active gauge references are out of id order: an import that "
+                    "re-orders reference lists would go unnoticed")
+    cov["imports_at_states_with_gauge_refs_out_of_id_order"] = import_unsorted
     cov["max_distinct_lock_durations_at_an_import"] = import_dur
     cov["reached"] = stats
     if imports_ok == 0:
